@@ -57,9 +57,39 @@ def build_replay_crate():
     return True, ""
 
 
-def run_unit(prop, unit, probe=False, no_hints=False, extra_requires=None, only_fn=None, tag=""):
+def find_helper(unit, name):
+    """a function `name` that extracted code calls but the unit does not list: look for it in the unit's source
+    files (free fn, or a method of an impl block the unit already extracts from)."""
+    u = A.parse_unit(os.path.join(VERIF, "contracts", unit + ".vc"))
+    own = [e[1].path for e in u.entries if e[0] == "fn"]
+    hdrs = {}
+    for pth in own:
+        a, hdr, _ = A.split_fn_path(pth)
+        hdrs.setdefault(a, set()).add(hdr)
+    for alias, rel in u.files.items():
+        try:
+            src = A.Source.get(rel)
+        except A.Undecided:
+            continue
+        for hdr in sorted(hdrs.get(alias, set())):
+            try:
+                src.find_fn(hdr, name)
+                return "%s::%s::%s" % (alias, hdr, name)
+            except A.Undecided:
+                pass
+        try:
+            src.find_fn("-", name)
+            return "%s::-::%s" % (alias, name)
+        except A.Undecided:
+            pass
+    return None
+
+
+def run_unit(prop, unit, probe=False, no_hints=False, extra_requires=None, only_fn=None, tag="", extra_fns=None, depth=0):
     path = os.path.join(VERIF, "contracts", unit + ".vc")
-    text, info = A.assemble(path, probe=probe, no_hints=no_hints, extra_requires=extra_requires)
+    A.Source.cache.clear()
+    text, info = A.assemble(path, probe=probe, no_hints=no_hints, extra_requires=extra_requires, extra_fns=extra_fns)
+    info["auto_extracted"] = list(extra_fns or [])
     out = os.path.join(BUILD, "%s%s%s.rs" % (unit, "_probe" if probe else "", tag))
     open(out, "w").write(text)
     # imported units live in `mod verif_imported` and are proved by their own unit: verify the root module only
@@ -67,14 +97,29 @@ def run_unit(prop, unit, probe=False, no_hints=False, extra_requires=None, only_
     if only_fn:
         extra = ["--verify-root", "--verify-function", only_fn]
     res = RV.run(out, extra=extra)
+    # a helper function that is new in /repo (not listed in the unit): extract it verbatim, without contract, and retry
+    if res.undecided and depth < 3:
+        m = re.search(r"no (?:method|function or associated item) named `(\w+)` found|cannot find function `(\w+)`", res.undecided + res.raw_err)
+        if m:
+            name = m.group(1) or m.group(2)
+            pth = find_helper(unit, name)
+            if pth and pth not in (extra_fns or []):
+                return run_unit(prop, unit, probe, no_hints, extra_requires, only_fn, tag, (extra_fns or []) + [pth], depth + 1)
+    # a resource limit in the main run: retry once with a ten times larger budget before calling it undecided
+    if res.resource and not probe and depth < 10:
+        res2 = RV.run(out, extra=extra, rlimit=100)
+        if not res2.resource or res2.failures:
+            res = res2
     spans = RV.map_lines_to_fns(text)
     for f in res.failures + res.resource:
         f["fn"] = RV.fn_at(spans, f["line"])
         f["unit"] = unit
     # a resource limit inside a vacuity-probe twin means `ensures false` could not be proved: that is the wanted outcome
     for f in res.resource:
-        if probe and (f.get("fn") or "").startswith("probe:"):
-            res.failures.append(f)
+        if probe:
+            # the probe build is only consulted for its `ensures false` twins; the originals are judged by the main run
+            if (f.get("fn") or "").startswith("probe:"):
+                res.failures.append(f)
         elif not res.undecided:
             res.undecided = "resource limit in %s: %s" % (f.get("fn"), f["message"])
     return text, info, res
@@ -109,6 +154,34 @@ def load_known():
                 d["line"] = ln
                 out.append(d)
     return out
+
+
+def bounded_fallback(prop, cfg, seed, reasons):
+    """The deductive check is undecided (the edited text left Verus' subset, an anchor is gone, ...).  A bounded
+    stand-in may still settle the question in one direction: if an executable twin finds a concrete input on
+    which the real code contradicts the property, that input is a replayable counterexample.  Nothing found =>
+    still undecided (never a pass)."""
+    twins = cfg.get("default_twins", [])
+    if not twins:
+        return None
+    ok, err = build_replay_crate()
+    if not ok:
+        return None
+    for twin in twins:
+        try:
+            p = subprocess.run([REPLAY_BIN, "search", twin, "--seed", str(seed)], capture_output=True, text=True, timeout=240)
+            v = json.loads(p.stdout.strip().split("\n")[-1])
+        except Exception:
+            continue
+        if v.get("found"):
+            rp = os.path.join(REPLAYS, "%s-bounded-%s.json" % (prop, twin.replace(".", "_")))
+            rec = {"property": prop, "decided_by": "BOUNDED twin search (the deductive check was undecided)", "bounded": True,
+                   "undecided_reasons": reasons, "obligation": ["executable twin of the contract disagrees with the real code"],
+                   "twin": twin, "input": v.get("input"), "observed": v.get("observed"), "expected": v.get("expected"),
+                   "replay_cmd": "./check %s --replay %s" % (prop, rp)}
+            json.dump(rec, open(rp, "w"), indent=1)
+            return (twin, rp)
+    return None
 
 
 def main(argv):
@@ -184,6 +257,12 @@ def main(argv):
     if undecided:
         for r in undecided:
             print("UNDECIDED:", r)
+        fb = bounded_fallback(prop, cfg, seed, undecided)
+        if fb:
+            violations.append((fb[0], fb[1], True))
+            cov["bounded_fallback"] = {"twin": fb[0], "replay": fb[1]}
+            print("VIOLATION property=%s replay=%s function=%s (bounded twin search; deductive check undecided)" % (prop, fb[1], fb[0]))
+            return finish(1)
         return finish(2)
 
     cmds = []
@@ -259,6 +338,12 @@ def main(argv):
     if undecided:
         for r in undecided:
             print("UNDECIDED:", r)
+        fb = bounded_fallback(prop, cfg, seed, undecided)
+        if fb:
+            violations.append((fb[0], fb[1], True))
+            cov["bounded_fallback"] = {"twin": fb[0], "replay": fb[1]}
+            print("VIOLATION property=%s replay=%s function=%s (bounded twin search; deductive check undecided)" % (prop, fb[1], fb[0]))
+            return finish(1)
         return finish(2)
     if cov["obligations"] == 0:
         print("UNDECIDED: zero obligations generated")
